@@ -6,7 +6,7 @@ Two streams, one instrumentation (`Recorder`, class-level wrappers, no source ho
   browser  a full `AsyncServiceBrowser` fed PTR responses through the record manager (learn, refresh,
            re-cased refresh, goodbye, expiry); the scheduler calls it makes are logged and replayed in the model
 Stage C compares, after every block: sends (time, first flag, question type, types), the armed timer,
-the start-up counter and the live schedule (`_next_scheduled_for_alias`).  Stage O is `oracle()` below.
+the start-up counter, the dict `_next_scheduled_for_alias` (key -> object) and every entry of `_query_heap` with its `cancelled` flag.  Stage O is `oracle()` below.
 """
 from __future__ import annotations
 
@@ -20,7 +20,7 @@ TRACE = True
 TRUSTED = [
     "C10: asyncio timer semantics are replaced by harness/vsim.py (a timer fires at exactly its due millisecond, same-instant order seed-permuted)",
     "C10: sub-millisecond float effects (clock resolution 1e-6 ms, ttl*1000*0.1) are not modelled; the harness flags any non-integral schedule time",
-    "C10: _next_scheduled_for_alias is a derived view in the model (live heap entries); the bijection is checked after every block, not proved",
+    "C10: heapq is abstracted as an ascending list (pop a minimum); cancelled heap entries tied in `when` with an entry both sides hold may differ (heapq layout)",
     "C10: async_send is assumed not to raise inside a scheduler pass (the D8b input is repaired at the decoder, see C15)",
 ]
 ASSUMPTIONS = ["loop axioms WFSched (DESIGN 4.7): time is monotone, no due timer is passed, a timer block runs at its due time"]
@@ -61,12 +61,19 @@ class Recorder:
             kind = "s" if "startup" in getattr(h._callback, "__name__", "") else "r"
             armed = "%s%d" % (kind, round(h.when() * 1000))
         d = qs._next_scheduled_for_alias
-        live = sorted("%s,%s,%d,%d,%d" % (C.hs(k), C.hs(q.name), q.ttl, self.ival(q.expire_time_millis, "expire"), self.ival(q.when_millis, "when"))
-                      for k, q in d.items())
-        # bijection dict <-> live heap entries
+
+        def objstr(q):
+            return "%s,%s,%d,%d,%d,%s" % (C.hs(q.alias), C.hs(q.name), q.ttl, self.ival(q.expire_time_millis, "expire"),
+                                          self.ival(q.when_millis, "when"), C.b01(q.cancelled))
+
+        # the two containers as the code has them: dict (key -> the object stored under it) and every heap entry with its flag
+        dct = sorted("%s=%s" % (C.hs(k), objstr(q)) for k, q in d.items())
+        heap = sorted(objstr(q) for q in qs._query_heap)
+        # identity-level facts the strings cannot show: dict values are heap members; live heap members are the dict values
         heap_live = [q for q in qs._query_heap if not q.cancelled]
-        bij = len(heap_live) == len(d) and all(d.get(q.alias) is q for q in heap_live)
-        return {"armed": armed, "sent": qs._startup_queries_sent, "live": live, "bij": bij}
+        bij = (len(heap_live) == len(d) and all(d.get(q.alias) is q for q in heap_live)
+               and all(any(v is q for q in qs._query_heap) for v in d.values()))
+        return {"armed": armed, "sent": qs._startup_queries_sent, "dict": dct, "heap": heap, "bij": bij}
 
     def install(self):
         import zeroconf._services.browser as B
@@ -268,9 +275,26 @@ def impl_chunks(events):
     out = []
     for e in events:
         st = e["state"]
-        out.append("ok ; %s ; %s ; %d ; %s" % (" ".join(e["sends"]) if e["sends"] else "-", st["armed"], st["sent"],
-                                              " ".join(st["live"]) if st["live"] else "-"))
+        out.append("ok ; %s ; %s ; %d ; %s ; %s" % (" ".join(e["sends"]) if e["sends"] else "-", st["armed"], st["sent"],
+                                                   " ".join(st["dict"]) if st["dict"] else "-", " ".join(st["heap"]) if st["heap"] else "-"))
     return out
+
+
+def heaps_agree(impl_heap, model_heap):
+    """The heaps must hold the same entries (flags included).  heapq is modelled as "pop a minimum": when a pass stops at a live
+    entry, which of the *cancelled* entries with the very same `when` have already surfaced depends on heapq's array layout.
+    So a difference is tolerated iff it consists of cancelled entries whose `when` equals that of an entry present on both sides."""
+    from collections import Counter
+
+    a, b = Counter(impl_heap.split()) if impl_heap != "-" else Counter(), Counter(model_heap.split()) if model_heap != "-" else Counter()
+    if a == b:
+        return True
+    common_whens = {x.split(",")[4] for x in (a & b)}
+    for x in list((a - b).elements()) + list((b - a).elements()):
+        f = x.split(",")
+        if f[5] != "1" or f[4] not in common_whens:
+            return False
+    return True
 
 
 # ------------------------------------------------------------------------------------------
@@ -354,6 +378,7 @@ def oracle(case, obs):
         if cur is not None:
             ivs.append((cur[0], cur[1], min(cur[0] + 1000 * cur[1], t_end), cur[2], "final"))
         lives[key] = ivs
+    solo = sum(1 for act in case["script"] if act[1] == "rec") == 1
     # ---- refresh liveness for records left unrefreshed
     for (ty, alias), ivs in lives.items():
         for (c, T, end, nlearn, how) in ivs:
@@ -375,7 +400,10 @@ def oracle(case, obs):
             for q1 in (cand[:1] if nlearn == 1 else cand):
                 nxt = q1 + 100 * T
                 good = True
-                while nxt < expire and nxt + delay < min(t_end, expire):
+                # a follow-up due before the expiry must be sent; when other records' passes (or silent ones after cancellations) can
+                # hold it back by up to `delay`, only those whose whole window precedes the expiry are demanded -- with a single
+                # record in the scenario nothing can hold it back
+                while nxt < expire and (nxt + delay < min(t_end, expire) or (solo and nxt + delay < t_end)):
                     h2 = hits(ty, nxt, nxt + delay)
                     if not h2:
                         good = False
@@ -440,7 +468,7 @@ def gen_browser_case(rng, i):
         c = rng.choice([0, 10, 20, 119, 120, 1100, 5000, 14200, 20000, 60000, 300000, rng.randint(0, 3_000_000)])
         script.append([c, "rec", alias, ty, ttl])
         exp = c + 1000 * T
-        fate = rng.choice(["expire", "expire", "refresh", "refresh", "recase", "goodbye", "recase-goodbye", "answer"])
+        fate = rng.choice(["expire", "expire", "refresh", "refresh", "recase", "goodbye", "recase-goodbye", "answer", "goodbye-relearn"])
         if fate in ("refresh", "recase", "answer"):
             t2 = {"refresh": rng.choice([c + 1, c + delay, c + delay + 1, c + 500 * T, c + 750 * T - 1, c + 750 * T, c + 750 * T + 1, c + 800 * T,
                                          c + 850 * T + 3, c + 999 * T]),
@@ -453,6 +481,13 @@ def gen_browser_case(rng, i):
         elif fate in ("goodbye", "recase-goodbye"):
             t2 = rng.choice([c + 1, c + 5000, c + 700 * T, c + 751 * T, c + 900 * T])
             script.append([t2, "rec", alias.swapcase() if fate == "recase-goodbye" else alias, ty, 0])
+        elif fate == "goodbye-relearn":
+            # withdrawn and announced again shortly afterwards: the new 75% time lies within `delay` of the withdrawn schedule
+            t2 = rng.choice([c + 1, c + 1000, c + 5000])
+            t3 = t2 + rng.choice([1, 1000, delay])
+            script.append([t2, "rec", alias, ty, 0])
+            script.append([t3, "rec", rng.choice([alias, alias.swapcase()]), ty, ttl])
+            exp = max(exp, t3 + 1000 * T)
         maxexp = max(maxexp, exp)
     horizon = min(maxexp + 40000, 12_000_000)
     r = rng.random()
@@ -536,16 +571,21 @@ def compare(res, case, obs, model_out):
         return False
     ok = True
     for k, (a, b) in enumerate(zip(impl, chunks[1:])):
-        if a != b:
-            res.disagree("c10run", {"case": case, "block": k, "op": obs["events"][k]["line"]}, a, b)
-            ok = False
-            break
+        if a == b:
+            continue
+        fa, fb = a.split(" ; "), b.split(" ; ")
+        if len(fa) == 6 and len(fb) == 6 and fa[:5] == fb[:5] and heaps_agree(fa[5], fb[5]):
+            res.count("heap-tie-tolerated")
+            continue
+        res.disagree("c10run", {"case": case, "block": k, "op": obs["events"][k]["line"]}, a, b)
+        ok = False
+        break
     if ok and not chunks[0].startswith("exec-ok"):
         res.disagree("c10run-exec", case, "trace accepted block by block", chunks[0])
         ok = False
     for k, e in enumerate(obs["events"]):
         if not e["state"]["bij"]:
-            res.disagree("c10-bijection", {"case": case, "block": k}, "dict and live heap entries differ", "bijection (modelling assumption)")
+            res.disagree("c10-bijection", {"case": case, "block": k}, "dict values / live heap members differ by identity", "Inv2 (proved of the model): dict values = live heap members")
             ok = False
             break
     return ok
